@@ -20,8 +20,11 @@
 
    The editing calls themselves are Crdt/Local.v ([apply_call]) run on the ops the scope admits.
 
-   Second half: the undo log of the op set ([OpSet::{add_succ_with_undo, undo_succ, reset_top,
-   undo_op}], op_set2/op_set.rs) over the index columns it touches.  No proofs in this file. *)
+   Second half: the undo log of the op set ([OpSet::{add_succ_with_undo, undo_succ, reset_top}],
+   op_set2/op_set.rs, as of 9da869ded: a named counter is exposed as top op only when it is visible)
+   over the index columns it touches.  Every local op of a scoped transaction, the deletions of
+   [inner_splice] included (32c572db3), runs [reset_top] on its register afterwards and again when
+   it is undone.  No proofs in this file. *)
 From AM Require Import Base.Prelude Base.Order Crdt.Types Crdt.Interp Crdt.Doc Crdt.Local Crdt.Commit.
 Local Open Scope N_scope.
 
@@ -270,6 +273,12 @@ Definition add_one (s : astate) (i : sins) : res astate :=
     Ok (mkAS (mkCols cnt vis text top sub) (as_undo s ++ [u]) succ_inc (Some (si_pos i)) (as_expose s) true)
   | Some _ =>
     if as_delete s && negb (as_expose s) then
+      if negb (option_eqb Bool.eqb (nth_error (c_vis c) (si_pos i)) (Some true)) then
+        (* (repair 9da869ded) a counter the scope shows but the document has superseded is not a
+           top op: nothing but the successor entry changes, [expose] stays as it is *)
+        Ok (mkAS (mkCols cnt (c_vis c) (c_text c) (c_top c) sub) (as_undo s ++ [mkSU i None None None])
+                 succ_inc (Some (si_pos i)) (as_expose s) (as_delete s))
+      else
       (* the first surviving counter below the ops deleted so far becomes the top op and carries
          the element's width in the text index *)
       let u := mkSU i None (nth_error (c_text c) (si_pos i)) (nth_error (c_top c) (si_pos i)) in
@@ -363,3 +372,7 @@ Definition canon_top (vis : list bool) : list bool :=
   | Some n => map (fun i => Nat.eqb i n) (seq 0 (length vis))
   | None => map (fun _ => false) vis
   end.
+
+(* the invariant [validate_top_index] asserts row by row and [reset_top] relies on: a top op is visible *)
+Definition top_vis (c : cols) : Prop :=
+  forall p, nth_error (c_top c) p = Some true -> nth_error (c_vis c) p = Some true.
